@@ -199,10 +199,17 @@ func DecryptKey(keyjson []byte, auth string) (*Key, error) {
 		return nil, err
 	}
 	key := crypto.ToECDSAUnsafe(keyBytes)
+	address := crypto.PubkeyToAddress(key.PubKey())
+
+	// The MAC covers the derived key and the ciphertext only: an altered IV decrypts to a
+	// different key without any error. The file names the account it belongs to, check it.
+	if stored, ok := m["address"].(string); ok && stored != "" && common.HexToAddress(stored) != address {
+		return nil, fmt.Errorf("encrypted key content mismatch: have account %x, file says %s", address, stored)
+	}
 
 	return &Key{
 		Id:         uuid.UUID(keyId),
-		Address:    crypto.PubkeyToAddress(key.PubKey()),
+		Address:    address,
 		PrivateKey: key,
 	}, nil
 }
